@@ -15,35 +15,41 @@ import (
 )
 
 type ChainCfg struct {
-	Prop          string
-	LayoutDSSE    bool
-	LinkDSSE      bool
-	NSteps        int
-	Depth         int      // levels of sublayouts below this one
-	PopKinds      []string // extra link files per step are drawn from these kinds
-	ExtraPerStep  int
-	Thresholds    []int
-	Alter         string // C01 alteration ("" = none)
-	Prime         bool   // C01: verify the authentic layout first, in the same process
-	ShortPct      int    // chance (percent) that a step gets one honest link too few (default 8)
-	SurplusPct    int    // chance (percent) that a step gets one honest link more than its threshold
-	EmptyLastPct  int    // chance (percent) that the last step of a multi-step layout reports no products
-	SubExpiredPct int    // chance (percent) that a sublayout carries an expired / unparseable expiry
-	AltAlgPct     int    // chance (percent) that all links of the LAST top-level step record their products under sha512 only
-	Expiry        string // "" = far future
-	Inspections   []string
-	DirEdit       string // "", "add", "remove", "modify"
-	Entry         string // "plain" | "withdir"
-	RunDirState   string
-	Params        map[string]string
-	RuleStyle     int // 0 strict (MATCH + DISALLOW *), 1 lenient (ALLOW *), 2 random
-	CertSteps     bool
-	Differ        bool // C05: make one counted link disagree
-	Marker        string
-	RunDir        string
-	Repeat        bool // run the implementation several times per case (map iteration order)
-	Degenerate    bool // C15: odd layouts (empty rules, missing keys)
-	ParamRules    bool // C10: product rules carry {PAT} markers
+	Prop             string
+	LayoutDSSE       bool
+	LinkDSSE         bool
+	NSteps           int
+	Depth            int      // levels of sublayouts below this one
+	PopKinds         []string // extra link files per step are drawn from these kinds
+	ExtraPerStep     int
+	Thresholds       []int
+	Alter            string // C01 alteration ("" = none)
+	Prime            bool   // C01: verify the authentic layout first, in the same process
+	ShortPct         int    // chance (percent) that a step gets one honest link too few (default 8)
+	SurplusPct       int    // chance (percent) that a step gets one honest link more than its threshold
+	EmptyLastPct     int    // chance (percent) that the last step of a multi-step layout reports no products
+	SubExpiredPct    int    // chance (percent) that a sublayout carries an expired / unparseable expiry
+	InspNameClashPct int    // chance (percent) that an inspection is named like the first or last step
+	EmptyLastSub     bool   // EmptyLastPct also applies inside sublayouts
+	StepRuleBreakPct int    // chance (percent) that a top-level step gets product rules that fail
+	RequirePct       int    // chance (percent) that an inspection carries a REQUIRE in its material rules (first, or after ALLOW *)
+	AltAlgPct        int    // chance (percent) that all links of the LAST top-level step record their products under sha512 only
+	Expiry           string // "" = far future
+	Inspections      []string
+	DirEdit          string // "", "add", "remove", "modify"
+	Entry            string // "plain" | "withdir"
+	RunDirState      string
+	Params           map[string]string
+	RuleStyle        int  // 0 strict (MATCH + DISALLOW *), 1 lenient (ALLOW *), 2 random
+	OddStepNames     bool // C15: step names with pattern metacharacters etc. (crash search)
+	CertSteps        bool
+	CertChainBias    string // chain kind used for 60% of the certificate steps ("" = uniform)
+	Differ           bool   // C05: make one counted link disagree
+	Marker           string
+	RunDir           string
+	Repeat           bool // run the implementation several times per case (map iteration order)
+	Degenerate       bool // C15: odd layouts (empty rules, missing keys)
+	ParamRules       bool // C10: product rules carry {PAT} markers
 }
 
 type Level struct {
@@ -141,6 +147,8 @@ func (g *chainGen) buildLevel(depth int, initial Files, signers []*TestKey, name
 	}
 	cur := initial
 	prevName := ""
+	var prevStepKeys []*TestKey
+	var stepNames []string
 	steps := []any{}
 	var rootIDs []string
 	rootcas := JObj{}
@@ -149,6 +157,14 @@ func (g *chainGen) buildLevel(depth int, initial Files, signers []*TestKey, name
 	_ = callerInters
 	for i := 0; i < nsteps; i++ {
 		name := fmt.Sprintf("step%d%s", i, nameSuffix)
+		if cfg.OddStepNames && top {
+			// step names are part of a file-name PATTERN when links are looked up: names with pattern
+			// metacharacters, path separators, dots, blanks, control characters, very long names
+			// (crash/hang search only: the model treats step names literally)
+			name = rng.Pick([]string{"[abcdefghijklm]", "*********", "aaaaaaaaaaaa/b", "?", "a*", "[a-", "\\", "x[!", "..", ".", "", "a b", "é", "{", "step\n",
+				strings.Repeat("n", 300), "[^a]", "????????", "*.link", "a.????????", "\\*", "[]", "[a-z]*[0-9]", "a\x00b"}) + strings.Repeat("_", i)
+			lv.Feat = append(lv.Feat, "odd-step-name")
+		}
 		// functionaries of this step
 		nf := 1 + rng.Intn(3)
 		perm := append([]int{}, funcKeys...)
@@ -171,7 +187,7 @@ func (g *chainGen) buildLevel(depth int, initial Files, signers []*TestKey, name
 		if len(prods) == 0 {
 			prods = genFiles(rng, 1)
 		}
-		if cfg.EmptyLastPct > 0 && top && i == nsteps-1 && nsteps > 1 && rng.Chance(cfg.EmptyLastPct) {
+		if cfg.EmptyLastPct > 0 && (top || cfg.EmptyLastSub) && i == nsteps-1 && nsteps > 1 && rng.Chance(cfg.EmptyLastPct) {
 			// the last step reports NO products: the summary must carry exactly that (seeded change
 			// c05-summary-skips-empty-last-step)
 			prods = Files{}
@@ -191,7 +207,10 @@ func (g *chainGen) buildLevel(depth int, initial Files, signers []*TestKey, name
 		var certChain string
 		if cfg.CertSteps && top && rng.Chance(60) {
 			certLeafKey = pool()[3]
-			certChain = rng.Pick([]string{"direct", "inter-layout", "inter-caller", "expired-leaf", "foreign-root", "missing-inter", "direct", "inter-layout"})
+			certChain = rng.Pick([]string{"direct", "inter-layout", "inter-caller", "expired-leaf", "foreign-root", "missing-inter", "direct", "inter-layout", "foreign-inter-caller", "foreign-root-caller"})
+			if cfg.CertChainBias != "" && rng.Chance(60) {
+				certChain = cfg.CertChainBias
+			}
 			cs := setupChain(certChain)
 			if len(rootIDs) == 0 {
 				for k, r := range cs.LayoutRoots {
@@ -222,6 +241,12 @@ func (g *chainGen) buildLevel(depth int, initial Files, signers []*TestKey, name
 		}
 		st = st.Set("expected_materials", g.rules(prevName, style, true, mats))
 		st = st.Set("expected_products", g.rules(prevName, style, false, prods))
+		if cfg.StepRuleBreakPct > 0 && top && rng.Chance(cfg.StepRuleBreakPct) {
+			// a STEP rule that fails (every product is disallowed): the verification must stop there,
+			// before any inspection command runs (seeded change c09-single-pass-rules-after-inspections)
+			st = st.Set("expected_products", []any{[]any{"DISALLOW", "*"}})
+			lv.Feat = append(lv.Feat, "step-rule-break")
+		}
 		if cfg.ParamRules && top {
 			st = st.Set("expected_products", []any{[]any{"ALLOW", "{PAT}"}, []any{"DISALLOW", "*"}})
 			st = st.Set("expected_command", []any{"build", "{PAT}", "{UNUSED}"})
@@ -345,6 +370,31 @@ func (g *chainGen) buildLevel(depth int, initial Files, signers []*TestKey, name
 				put(shortID(foreign.ID), g.wrapSign(linkTree(name, mats, oddProds, cmd), cfg.LinkDSSE, []sigSpec{{key: foreign}}))
 			case "other-step-key":
 				put(shortID(other.ID), g.wrapSign(linkTree(name, mats, oddProds, cmd), cfg.LinkDSSE, []sigSpec{{key: other}}))
+			case "earlier-step-key":
+				// a functionary of an EARLIER step of this layout (listed and defined there) signs a
+				// link for this step, for which it is not listed: authorization is per step
+				// (seeded change c02-authorized-ids-leak-across-steps)
+				var cands []*TestKey
+				for _, pk := range prevStepKeys {
+					listed := false
+					for _, f := range fs {
+						if f.ID == pk.ID {
+							listed = true
+						}
+					}
+					if !listed {
+						cands = append(cands, pk)
+					}
+				}
+				if len(cands) == 0 {
+					continue
+				}
+				ek := cands[rng.Intn(len(cands))]
+				ep := prods
+				if rng.Chance(30) {
+					ep = oddProds
+				}
+				put(shortID(ek.ID), g.wrapSign(linkTree(name, mats, ep, cmd), cfg.LinkDSSE, []sigSpec{{key: ek}}))
 			case "forged-keyid":
 				put(shortID(victim.ID), g.wrapSign(linkTree(name, mats, oddProds, cmd), cfg.LinkDSSE, []sigSpec{{key: foreign, keyidOvr: victim.ID}}))
 			case "extra-sigs":
@@ -402,6 +452,8 @@ func (g *chainGen) buildLevel(depth int, initial Files, signers []*TestKey, name
 					continue
 				}
 				info := certInfo(cert, cs.GroundTruthOK)
+				// the chain relies on an intermediate only the caller supplies (ground truth per call)
+				info["needs_caller"] = cs.GroundTruthOK && len(cs.CallerInters) > 0
 				ck := map[string]any{"keyid": certLeafKey.ID, "keytype": certLeafKey.Pub.KeyType, "scheme": certLeafKey.Pub.Scheme,
 					"public": certLeafKey.Pub.KeyVal.Public, "private": "", "certificate": pemS}
 				g.w.Certs[pemS] = map[string]any{"key": ck, "info": info}
@@ -427,8 +479,19 @@ func (g *chainGen) buildLevel(depth int, initial Files, signers []*TestKey, name
 				put(infix, g.wrapSign(linkTree(name, mats, p, cmd), false, specs))
 			}
 		}
+		if cfg.OddStepNames && top && len(fs) > 0 {
+			// short / oddly named files a pattern-like step name may match
+			body := WriteJ(g.wrapSign(linkTree(name, mats, prods, cmd), cfg.LinkDSSE, []sigSpec{{key: fs[0]}}), nil, false)
+			for _, fn := range []string{"a." + shortID(fs[0].ID) + ".link", "a.link", ".link", "ab.12345678.link", shortID(fs[0].ID) + ".link", "b", "a.b.c.d.link"} {
+				if rng.Chance(60) {
+					files[fn] = body
+				}
+			}
+		}
 		cur = prods
 		prevName = name
+		stepNames = append(stepNames, name)
+		prevStepKeys = append(prevStepKeys, fs...)
 	}
 	lv.Last = cur
 	// inspections
@@ -436,6 +499,13 @@ func (g *chainGen) buildLevel(depth int, initial Files, signers []*TestKey, name
 	if top {
 		for k, kind := range cfg.Inspections {
 			iname := fmt.Sprintf("insp%d", k)
+			if cfg.InspNameClashPct > 0 && len(stepNames) > 0 && rng.Chance(cfg.InspNameClashPct) {
+				// an inspection that carries the name of the first or last STEP: the step's agreed link,
+				// not the inspection's, is what step rules and the summary see
+				// (seeded change c05-inspection-overwrites-step-link)
+				iname = stepNames[[]int{0, len(stepNames) - 1}[rng.Intn(2)]]
+				lv.Feat = append(lv.Feat, "insp-name-clash")
+			}
 			c := catalogueCmd(rng, iname, cfg.Marker, kind)
 			g.w.addCmd(c)
 			matRules := []any{}
@@ -448,6 +518,24 @@ func (g *chainGen) buildLevel(depth int, initial Files, signers []*TestKey, name
 				matRules = append(matRules, []any{"ALLOW", "*.link"}, []any{"ALLOW", "new-*"}, []any{"DISALLOW", "*"})
 			} else {
 				matRules = g.rules("", 2, true, cur)
+			}
+			if cfg.RequirePct > 0 && rng.Chance(cfg.RequirePct) {
+				// REQUIRE in inspection rules, before and after the rules that consume: it has to be
+				// evaluated also when the queue is (or has become) empty (seeded change c09-empty-queue-break)
+				req := "missing.txt"
+				if names := keysOf(cur); len(names) > 0 && rng.Chance(70) {
+					req = names[rng.Intn(len(names))]
+				}
+				if cfg.Entry == "withdir" && cfg.RunDirState == "ok" {
+					req = cfg.RunDir + "/" + req
+				}
+				if rng.Bool() {
+					matRules = append([]any{[]any{"REQUIRE", req}}, matRules...)
+					lv.Feat = append(lv.Feat, "require-first")
+				} else {
+					matRules = []any{[]any{"ALLOW", "*"}, []any{"REQUIRE", req}}
+					lv.Feat = append(lv.Feat, "require-last")
+				}
 			}
 			insps = append(insps, O("_type", "inspection", "run", argvAny(c.Argv), "name", iname,
 				"expected_materials", matRules, "expected_products", g.rules("", rng.Intn(3), false, cur)))
